@@ -179,15 +179,21 @@ def validate(ctx, spec, src, run, acc, datasets, extra=None):
             itr.allocate_tensors()
             in_idx = {d['index'] for d in itr.get_input_details()}
             xin = None
+            nonfinite_in = False
             for t0, t1 in zip(oa.inputs, ob.inputs):
               t0, t1 = int(t0), int(t1)
               if t0 != -1 and remap[t0] in in_idx:
+                if vals[t1].dtype.kind == 'f' and not np.all(np.isfinite(vals[t1])):
+                  nonfinite_in = True     # garbage written by an upstream kernel (KF-DWCONV-DRQ-TENSORWISE) is that operator's matter
                 itr.set_tensor(remap[t0], vals[t1])
                 if xin is None and vals[t1].dtype == np.float32:
                   xin = vals[t1]
             itr.invoke()
           except Exception as e:  # pylint: disable=broad-except
             ctx.count('replay_unavailable:' + (opn or 'OTHER'))
+            continue
+          if nonfinite_in:
+            ctx.count('replay_inputs_nonfinite_skipped')
             continue
           for t0, t1 in zip(oa.outputs, ob.outputs):
             refv = itr.get_tensor(remap[int(t0)]).astype(np.float64)
